@@ -218,7 +218,7 @@ else:
     Cx = prog.cls(SC, 'SamplingContext')
     pi = Cx.methods['__post_init__']
     t = unparse(pi.node)
-    ok = "self.mev_prefix = '' if self.second_partition is None else MEV_PREFIX" in t
+    ok = has(pi.node, "self.mev_prefix = '' if self.second_partition is None else MEV_PREFIX")
     ctx.add('C19.R2', 'SamplingContext.mev_prefix', ok, pi, 'the MEV prefix is used iff there is a second partition' if ok else 'definition of mev_prefix changed', 'prefix')
     lg = M.methods['get_logit']
     ok = body_is(lg.body, """
